@@ -378,6 +378,8 @@ def run(repo, rep):
     _log_rule(repo, rep, 'C04', 'C04.Z2')
     from ..api_pitfalls import truth_rule as _truth_rule
     _truth_rule(repo, rep, 'C04', 'C04.Z4')
+    from ..api_pitfalls import attribute_rule as _attribute_rule
+    _attribute_rule(repo, rep, 'C04', 'C04.Z5')
     model = FsmModel(repo)
     rep.trust('PS3.8 Table 9-10 / Tables 9-6..9-9 as transcribed in pnd_static/oracles/ps3_8.py '
               '(cross-checked by row totals)')
